@@ -507,9 +507,7 @@ func (g *gen) field(thisField, thatField string, fieldType types.Type) (string, 
 	case *types.Array, *types.Map:
 		return fmt.Sprintf("%s(%s, %s)", g.GetFuncName(fieldType, fieldType), thisField, thatField), nil
 	case *types.Slice:
-		if b, ok := typ.Elem().(*types.Basic); ok && b.Kind() == types.Byte {
-			return fmt.Sprintf("%s.Compare(%s, %s)", g.bytesPkg(), thisField, thatField), nil
-		}
+		// no bytes.Compare shortcut for []byte: it ties a nil with an empty slice, which Equal tells apart
 		return fmt.Sprintf("%s(%s, %s)", g.GetFuncName(fieldType, fieldType), thisField, thatField), nil
 	case *types.Struct:
 		return g.field("&"+thisField, "&"+thatField, types.NewPointer(fieldType))
